@@ -666,16 +666,16 @@ Print Assumptions C07_layout_preserves_tokens_full_refuted.
 
 (* The statement to prove, with the hypothesis it needs and WITHOUT cr_free (no longer needed after the
    F55 repair: Formatter.v never builds a Relined piece, see dok_binop_doc / C07_relined_identity).
-   Still open between C07_layout_tokens_are_pieces_partial and this:
-   (a) `canon` over the piece chunks: the trailing `,` of the list / record / call layouts before the
-       closer, and `x =>` (format_lambda, format_single_line) against `(x) =>` (expr_to_source) — canon is a
-       4-token look-ahead rewriting and needs its own congruence lemmas over the same walk;
-   (b) the chunks of the one-line text print_text e as the same concatenation (print_text is not built
-       from pieces; the same boundary lemmas apply to its separators `, ` ` op ` `if ` ` then ` ` else `);
-   (c) tok_ok for the printer instance from `wf` + lexical sanity of names, number texts and quoted
-       strings (quote_string).
-   Families: (a)+(b) are open for every family (list / record / call; binary operators; conditional;
-   lambda; do-block); what IS proved for every family is the seam structure (FmtToksDoc.v). *)
+   Proved towards it (below): the same CHUNKS for the recursive fragment operators / conditionals / assignment /
+   do-blocks (C07_layout_view_flat_partial), the same VIEW for lists and calls of chunk-equal elements
+   (C07_layout_view_list_partial, C07_layout_view_call_partial, via C07_canon_trailing_comma).
+   Still open:
+   (a) the general congruence of `canon` (a 4-token look-ahead rewriting) over seams — needed for lists / records /
+       calls whose elements are themselves lists / records / calls / lambdas, and for `x =>` (format_lambda,
+       format_single_line) against `(x) =>` (expr_to_source);
+   (b) the record family (same technique as list / call);
+   (c) tok_ok for the printer instance from `wf` + lexical sanity of names, number texts and quoted strings
+       (quote_string), and the side condition "last chunk of an element is not `,`" from the same. *)
 Definition C07_layout_view_full : Prop := forall numtxt keepc w e i,
   wf e = true -> lam_ok e = true ->
   let O := printer_oracles FX_ALL (policy_new fixed_opinfo) numtxt keepc in
